@@ -244,18 +244,19 @@ def scenarios(ck):
     add('import-as-nothing', {MAIN: b'import "m.nano" as\nfn main() -> int { return 0 }\n', 'm.nano': mod([], 'm')}, None)
     add('many-imports-300', dict([(MAIN, mod([imp('m%d.nano' % i) for i in range(300)], 'main', True))] +
                                  [('m%d.nano' % i, mod([], 'm%d' % i)) for i in range(300)]), 'ok')
-    for depth in ((50, 500, 3000) if ck.thorough else (50, 500)):
+    for depth in (50, 500, 3000):
         files = {MAIN: mod([imp('c0.nano')], 'main', True)}
         g = {'main': ['c0']}
         for i in range(depth):
             last = i == depth - 1
             files['c%d.nano' % i] = mod([] if last else [imp('c%d.nano' % (i + 1))], 'c%d' % i)
             g['c%d' % i] = [] if last else ['c%d' % (i + 1)]
-        add('chain-%d' % depth, files, 'ok' if depth <= 500 else None, graph=g)
+        # (the extracted model works on unary numbers: cubic in the chain length, so only chains up to 500 are given to it)
+        add('chain-%d' % depth, files, 'ok' if depth <= 500 else None, graph=g if depth <= 500 else None)
         files = dict(files)
         files['c%d.nano' % (depth - 1)] = mod([imp('c0.nano')], 'c%d' % (depth - 1))
         g = dict(g); g['c%d' % (depth - 1)] = ['c0']
-        add('chain-%d-closed' % depth, files, 'diag', graph=g)
+        add('chain-%d-closed' % depth, files, 'diag', graph=g if depth <= 500 else None)
     return S
 
 
@@ -342,6 +343,8 @@ def classify(rc, err):
 def diag_kind(err):
     if re.search(r'[Cc]ircular', err):
         return 'cycle'
+    if re.search(r'nested too deeply', err):
+        return 'depth'
     if re.search(r'not found|Could not open|Failed to resolve', err):
         return 'missing'
     return 'other'
@@ -364,3 +367,230 @@ def first_repo_frame(err):
 def loader_recursion(err):
     """is the report a stack overflow through the import loader's recursion (load_module_internal <-> process_imports)?"""
     return 'stack-overflow' in err and len(re.findall(r' in load_module_internal ', err)) >= 3 and len(re.findall(r' in process_imports ', err)) >= 3
+
+
+# ------------------------------------------------------------------------------------------------ module graphs: the run
+CYCLE_KEY = 'c09:modules:cycle2:%s'                     # unbounded recursion of the import loader on ANY circular import (one root cause)
+DIR_KEY = 'c09:modules:import-directory:%s'             # import of a path that fopen() opens but that is not a regular file
+IGNORED_KEY = 'c09:modules:failed-import-ignored:%s'    # a module that failed to load is treated as "already loaded": Error lines, exit status 0
+LOADER_FAILURE = re.compile(r"^Error: (Failed to (parse|tokenize|process imports for) module|Type checking failed for module|Could not open module file)", re.M)
+
+
+def family(sc):
+    n = sc.name
+    if n == 'self' or n.startswith('self-') or n.startswith('cycle') or (n.startswith('chain-') and n.endswith('-closed')):
+        return 'cycle'
+    if n.startswith('import-directory') or n in ('import-dot', 'import-dotdot', 'import-slash'):
+        return 'directory'
+    return None
+
+
+def graph_text(g):
+    return ';'.join('%s=%s' % (a, ','.join(g[a])) for a in sorted(g, key=lambda s: (s != 'main', len(s), s)))
+
+
+def model_verdicts(ref, scs):
+    """-> {scenario name: (guarded, unguarded)} with each verdict ('ok',) | ('cycle', name) | ('missing', name) | ('fuel',)"""
+    lines, meta = [], []
+    for sc in scs:
+        if sc.graph:
+            line, names = model_line(sc.graph)
+            lines.append(line); meta.append((sc, names))
+    out = {}
+    if not lines:
+        return out
+    ans = vlib.run_lines(ref, lines, timeout=300)
+    for (sc, names), a in zip(meta, ans):
+        vs = []
+        for part in a.split(' | '):
+            f = part.split()
+            if not f:
+                vs.append(('bad', a))
+            elif f[0] in ('cycle', 'missing'):
+                vs.append((f[0], names[int(f[1])]))
+            else:
+                vs.append((f[0],))
+        out[sc.name] = tuple(vs) if len(vs) == 2 else (('bad', a), ('bad', a))
+    return out
+
+
+def real_verdict(cls, err):
+    """verdict class of the real tool in the model's vocabulary"""
+    if cls == 'ok':
+        return ('ok',)
+    if cls in ('diag', 'error-exit0'):
+        k = diag_kind(err)
+        if k == 'cycle':
+            m = re.search(r"Circular import[^\n]*?'([^']*)'", err)
+            return ('cycle', os.path.basename(m.group(1))[:-len('.nano')] if m and m.group(1).endswith('.nano') else '?')
+        if k == 'missing':
+            m = re.search(r"Module file '([^']*)' not found", err)
+            return ('missing', os.path.basename(m.group(1))[:-len('.nano')] if m and m.group(1).endswith('.nano') else '?')
+        return ('diag-depth',) if k == 'depth' else ('diag-other',)
+    if cls == 'crash':
+        return ('fuel',)               # runaway recursion / any crash: compared with the model's "never returns"
+    return (cls,)
+
+
+def run_module_graphs(ck, ref):
+    builds = dict(plain=ck.build('plain'), asan=ck.build('asan'))
+    named = scenarios(ck)
+    rnd = random_graphs(ck, 200 if ck.thorough else 40)
+    model = model_verdicts(ref, named + rnd)
+    tmp = tempfile.mkdtemp(prefix='c09mod', dir=vlib.BUILD)
+    jobs = []
+    for sc in named:
+        for tool in ('nano_virt', 'nanoc'):
+            for v in ('plain', 'asan'):
+                jobs.append((sc, tool, v))
+    for sc in rnd:
+        jobs += [(sc, 'nano_virt', 'plain'), (sc, 'nano_virt', 'asan'), (sc, 'nanoc', 'plain')] + ([(sc, 'nanoc', 'asan')] if ck.thorough else [])
+
+    def one(job, timeout=90):
+        sc, tool, v = job
+        d = os.path.join(tmp, sc.name, tool + '-' + v)
+        try:
+            write_scenario(sc, d)
+        except OSError as e:                       # a scenario the file system refuses (name too long ...) is not an input
+            return job, None, 'harness: %s' % e
+        rc, e = run_tool(builds[v], tool, d, sc.main, timeout)
+        shutil.rmtree(d, ignore_errors=True)
+        return job, rc, e
+    outc, fam_seen, mism, expect_mism, results = {}, {}, [], [], {}
+    try:
+        with ThreadPoolExecutor(14) as ex:
+            res = list(ex.map(one, jobs))
+        # a timeout on a loaded machine: once more, alone
+        res = [one(job, 240) if rc == -9 else (job, rc, e) for job, rc, e in res]
+        # which loader does each tool have?  (behaviour on the self import, plain build)
+        variant = {}
+        for (sc, tool, v), rc, e in res:
+            if sc.name == 'self' and v == 'plain' and rc is not None:
+                variant[tool] = 'guarded' if classify(rc, e)[0] == 'diag' and diag_kind(e) == 'cycle' else 'unguarded'
+        for (sc, tool, v), rc, e in res:
+            if rc is None:
+                ck.note('module graph scenario %s not materialised (%s)' % (sc.name, e))
+                continue
+            cls, detail = classify(rc, e)
+            ck.count(('modules', sc.name, graph_text(sc.graph) if sc.name.startswith('rand') else '', tool, v), nontrivial=True)
+            outc['%s/%s' % (tool, cls)] = outc.get('%s/%s' % (tool, cls), 0) + 1
+            results.setdefault(sc.name, {})['%s-%s' % (tool, v)] = cls + (':' + diag_kind(e) if cls in ('diag', 'error-exit0') else '')
+            fam = family(sc)
+            mv = model.get(sc.name)
+            if fam is None and mv and mv[0][0] == 'cycle':
+                fam = 'cycle'
+            ident = sc.name if not sc.name.startswith('rand') else 'graph[%s]' % graph_text(sc.graph)
+            rep = dict(scenario=sc.name, graph=sc.graph and graph_text(sc.graph), tool=tool, build=v, main=sc.main, observed='%s %s' % (cls, detail),
+                       files={k: (x.decode('latin1') if len(x) < 3000 else None) for k, x in list(sc.files.items())[:12]}, dirs=list(sc.dirs),
+                       command=' '.join(os.path.basename(x) if i == 0 else x for i, x in enumerate(TOOL_CMDS[tool](builds[v], sc.main))),
+                       stderr=e[-1200:], engine='%s (%s build), prlimit --stack=%dk, NANO_CC=true' % (tool, v, STACK_KB))
+            # ---- the property: acceptance or a diagnostic with a failure status
+            if cls in ('crash', 'timeout'):
+                fr = first_repo_frame(e)
+                if fr and not re.match(r'(lexer|parser|typechecker|module|env|module_metadata|main)\.c$|nanovirt/main\.c$', fr[1]):
+                    ck.note('%s (%s) fails outside the front end (%s in %s) on module scenario %s: not a C09 matter' % (tool, v, fr[0], fr[1], sc.name))
+                    outc['outside-front-end'] = outc.get('outside-front-end', 0) + 1
+                    continue
+                is_overflow = loader_recursion(e) if v == 'asan' else (cls == 'crash' and detail in ('signal 11', 'exit 139'))
+                if fam == 'cycle' and is_overflow:
+                    key = CYCLE_KEY % tool
+                elif fam == 'directory' and cls == 'crash' and (v == 'plain' or (fr and fr[0] == 'load_module_internal')):
+                    key = DIR_KEY % tool
+                else:
+                    key = 'c09:modules:%s:%s:%s' % (ident, tool, cls)
+                fam_seen.setdefault(key, []).append('%s/%s' % (sc.name, v))
+                ck.fail(key, '%s (%s build) on the module graph "%s": %s %s%s' % (tool, v, ident, cls, detail,
+                                                                               ' in %s %s:%d' % fr if fr else ''), rep)
+            elif cls == 'silent':
+                ck.fail('c09:modules:%s:%s:silent' % (ident, tool), '%s exits %s without any diagnostic on the module graph "%s"' % (tool, detail, ident), rep)
+            elif cls == 'error-exit0':
+                key = IGNORED_KEY % tool if LOADER_FAILURE.search(e) else 'c09:modules:%s:%s:error-exit0' % (ident, tool)
+                fam_seen.setdefault(key, []).append('%s/%s' % (sc.name, v))
+                ck.fail(key, '%s (%s build) prints "%s" but exits with status 0 on the module graph "%s"' % (tool, v, detail, ident), rep)
+            # ---- expectation of the scenario table (a wrong expectation is a defect of the table, reported as a note)
+            if sc.expect and cls in ('ok', 'diag') and cls != sc.expect:
+                expect_mism.append('%s/%s-%s: expected %s, got %s' % (sc.name, tool, v, sc.expect, cls))
+            # ---- the model
+            if mv and cls in ('ok', 'diag', 'error-exit0') or (mv and fam == 'cycle'):
+                want = mv[0] if variant.get(tool) == 'guarded' else mv[1]
+                got = real_verdict(cls, e)
+                if got == ('diag-depth',) or (got == ('diag-other',) and want == ('ok',) and tool == 'nano_virt' and 'codegen failed' in e):
+                    # resource limits that the model does not have: the import depth limit, nano_virt's table of 512 functions
+                    outc['model-not-applicable(resource limit)'] = outc.get('model-not-applicable(resource limit)', 0) + 1
+                    continue
+                same = want[0] == got[0] and (want[0] not in ('cycle', 'missing') or got[1] in ('?', want[1]))
+                if not same:
+                    mism.append(dict(scenario=sc.name, graph=graph_text(sc.graph), tool=tool, build=v, loader=variant.get(tool), model=list(want), real=list(got)))
+                    ck.fail('c09:importmodel:%s:%s' % (ident, tool),
+                            'import-loader model (%s) and %s (%s build) differ on the graph %s: model %s, tool %s' %
+                            (variant.get(tool), tool, v, graph_text(sc.graph), ' '.join(want), ' '.join(got)),
+                            dict(rep, correspondence='nvref_c09 imports vs %s' % tool, model=list(want), real=list(got)), tie=cls in ('ok', 'diag'))
+    finally:
+        shutil.rmtree(tmp, ignore_errors=True)
+    for m in expect_mism[:10]:
+        ck.note('module scenario table: ' + m)
+    ck.extra['module_graphs'] = dict(named_scenarios=len(named), random_graphs=len(rnd), runs=len(jobs), outcomes=outc, loader_variant=variant,
+                                     model_compared=sum(1 for (sc, t, v), rc, e in res if sc.name in model and rc is not None), model_mismatches=mism[:20],
+                                     model_verdicts_guarded={k: sum(1 for x in model.values() if x[0][0] == k) for k in ('ok', 'cycle', 'missing')},
+                                     aliased_failures={k: v[:40] for k, v in fam_seen.items()}, expectation_mismatches=expect_mism[:20],
+                                     named_results=results if len(results) < 400 else None)
+    return results
+
+
+def replay_modules(ck, d):
+    """replay file of the module graph stream: files + tool + build"""
+    b = ck.build(d.get('build', 'plain'))
+    tmp = tempfile.mkdtemp(prefix='c09rep', dir=vlib.BUILD)
+    try:
+        names = dict((sc.name, sc) for sc in scenarios(ck))
+        sc = names.get(d.get('scenario'))
+        if sc is None:
+            sc = Scenario('replay', {k: (v or '').encode('latin1') for k, v in d['files'].items()}, None, main=d.get('main', MAIN), dirs=d.get('dirs', ()))
+        write_scenario(sc, tmp)
+        rc, e = run_tool(b, d['tool'], tmp, sc.main, 240)
+        cls, detail = classify(rc, e)
+        print('%s (%s): %s %s' % (d['tool'], b.variant, cls, detail))
+        print(e[-1500:])
+        bad = cls not in ('ok', 'diag')
+        print('REPRODUCED' if bad else 'not reproduced')
+        return 1 if bad else 0
+    finally:
+        shutil.rmtree(tmp, ignore_errors=True)
+
+
+# ------------------------------------------------------------------------------------------------ numeric positions on the real tool
+def numeric_real_tool(ck, ncases, probe_verdicts):
+    """plain nano_virt --emit-nvm on every numeric-position input: exit status 0 or 1 (with a diagnostic), no signal"""
+    b = ck.build('plain')
+    tmp = tempfile.mkdtemp(prefix='c09num', dir=vlib.BUILD)
+    outc = {}
+    try:
+        def one(k):
+            d = os.path.join(tmp, str(k)); os.makedirs(d)
+            open(os.path.join(d, 's.nano'), 'wb').write(ncases[k][1])
+            rc, e = run_tool(b, 'nano_virt', d, 's.nano', 20)
+            shutil.rmtree(d, ignore_errors=True)
+            return k, rc, e
+        with ThreadPoolExecutor(14) as ex:
+            res = list(ex.map(one, range(len(ncases))))
+        for k, rc, e in res:
+            tag, src = ncases[k]
+            if rc == -9:
+                k, rc, e = one(k)
+            cls, detail = classify(rc, e)
+            ck.count(('numeric-tool', src), True)
+            outc[cls] = outc.get(cls, 0) + 1
+            if cls in ('ok', 'diag', 'error-exit0'):
+                continue
+            pv = probe_verdicts.get(tag, '')
+            if cls in ('crash', 'timeout') and pv == 'accept':
+                # the front end (probe, same build) accepted this input: the failure is in code generation, not a C09 matter
+                ck.note('nano_virt (plain) fails after the front end accepted %s (%s %s): not a C09 matter' % (tag, cls, detail))
+                outc['after-front-end'] = outc.get('after-front-end', 0) + 1
+                continue
+            ck.fail('c09:%s:nano_virt:%s' % (tag, cls), 'nano_virt (plain) --emit-nvm: %s %s on %s' % (cls, detail, tag),
+                    dict(source_hex=src.hex() if len(src) < 20000 else None, origin=tag, observed='%s %s' % (cls, detail), stderr=e[-800:],
+                         engine='nano_virt(plain) --emit-nvm'))
+    finally:
+        shutil.rmtree(tmp, ignore_errors=True)
+    return outc
